@@ -259,10 +259,7 @@ func (cr *concRun) observer(stop *int32) {
 				seen[tx.Hash()] = true
 			}
 		}
-		ix, err := cr.pool.VerifSnapshot()
-		if err != nil {
-			note("internal:concurrent-snapshot", "snapshot under the pool lock is inconsistent: "+err.Error())
-		}
+		ix := cr.pool.VerifView() // read-only hook (VerifSnapshot re-heaps the price list: not while others run)
 		listed := 0
 		for _, m := range []map[common.Address][]common.Hash{ix.Pending, ix.Queue} {
 			for _, l := range m {
@@ -309,6 +306,23 @@ func (cr *concRun) observer(stop *int32) {
 			cr.pool.Has(h)
 		}
 		time.Sleep(150 * time.Microsecond)
+	}
+}
+
+// rpcReader plays a second API client (several RPC requests can be served at once).
+func (cr *concRun) rpcReader(stop *int32) {
+	for i := 0; atomic.LoadInt32(stop) == 0; i++ {
+		a := concAccts[i%nConc]
+		p, q := cr.pool.ContentFrom(a.addr)
+		cr.pool.Nonce(a.addr)
+		cr.pool.Stats()
+		var hs []common.Hash
+		for _, tx := range append(p, q...) {
+			hs = append(hs, tx.Hash())
+		}
+		cr.pool.Status(hs)
+		cr.pool.GasPrice()
+		time.Sleep(100 * time.Microsecond)
 	}
 }
 
@@ -382,6 +396,8 @@ func concurrent(c *core.Case) {
 	var obs sync.WaitGroup
 	obs.Add(1)
 	go func() { defer obs.Done(); cr.observer(&stop) }()
+	obs.Add(1)
+	go func() { defer obs.Done(); cr.rpcReader(&stop) }()
 	for g := 0; g < submitters; g++ {
 		wg.Add(1)
 		go func(g int) {
